@@ -246,6 +246,9 @@ func ruleC11(w *World, r *Report) {
 			k.selectionGate("C11.from", fs, ifacePkt(p), "")
 		}
 	}
+	// the whitelist is enforced only if a rule authorises exactly the (source, dest, port)
+	// triples it names: the matching semantics of Authenticate (shared with C12)
+	k.authenticateRule("C11.whitelist.")
 	r.MinInstances("C11.", 25)
 }
 
